@@ -315,7 +315,7 @@ pub proof fn lemma_@P@run_shape(t: Seq<RegOp>, n: nat, s0: @P@St, inp: Seq<@T@>)
 }
 """
 
-EXEC_FNS = ['Choice::bitor_assign', 'VmTrace::fill', 'VmTrace::resize', 'TracingVmEval::resize_slots', 'VarMap::check_tracing_arguments',
+EXEC_FNS = ['Choice::bitor_assign', 'VmTrace::fill', 'VmTrace::resize', 'VmTrace::as_slice', 'TracingVmEval::resize_slots', 'VarMap::check_tracing_arguments',
             'GenericVmTape::data', 'GenericVmTape::vars', 'VmData::choice_count', 'VmData::output_count', 'VmData::slot_count', 'RegTape::slot_count']
 
 SPECS = {
@@ -323,7 +323,12 @@ SPECS = {
         ensures final(self).0@ == Seq::new(old(self).0@.len(), |i: int| v)
 """),
  'VmTrace::resize': (None, """
-        ensures final(self).0@.len() == n
+        ensures final(self).0@.len() == n,
+            forall|i: int| 0 <= i < n && i < old(self).0@.len() ==> final(self).0@[i] == old(self).0@[i],
+            forall|i: int| old(self).0@.len() <= i < n ==> final(self).0@[i] == v,
+"""),
+ 'VmTrace::as_slice': ('r: &[Choice]', """
+        ensures r@ == self.0@
 """),
  'RegTape::slot_count': ('r: usize', """
         ensures r == self.slot_count as usize
